@@ -13,6 +13,7 @@ The RNG is outside the model: every identity is stated for the captured draws, w
 """
 import itertools
 import math
+import re
 from fractions import Fraction
 
 import numpy as np
@@ -35,11 +36,11 @@ RULE = ('person-period data sets generated here (id, t_in/t_out, binary time-var
         'cell of plan {all, none, natural, custom rule from the Cond grammar} x covariate models {none, L, L+W '
         'continuous, L+L2 with labels against call order} x censoring model {no, yes} x lags {none, first order, '
         'second-order chain in both listing orders, optionally a lag of the running count kept by out_recode} is run with random sample size 1..200, t_max 1..6 or None, recode strings from the '
-        'Assign grammar, np.random draws or pinned draws, and both memory modes with the same seed; 30% of the cases fit the reused object with another horizon/plan/sample first, 20% are compared with a fresh object; late entry (first observed record opening at time 1 or 2) for 40% of the individuals, an unused NaN column, integer or fractional weights, positional or keyword construction, out_recode programs that rewrite the outcome column (no event while L = 0 / event forced by L2 = 1); ids are ints or strings, columns int64 / int8 / int32, t_max an int / np.int64 / integral float. distinct = '
+        'Assign grammar, np.random draws or pinned draws, and both memory modes with the same seed; 30% of the cases fit the reused object with another horizon/plan/sample first, 20% are compared with a fresh object; late entry (first observed record opening at time 1 or 2) for 40% of the individuals, an unused NaN column, integer or fractional weights, positional or keyword construction, out_recode programs that rewrite the outcome column (no event while L = 0 / event forced by L2 = 1); ids are ints or strings, columns int64 / int8 / int32, t_max an int / np.int64 / integral float; the continuous covariate W with its baseline value and its lag column W_l1 is stored as floats or (two data seeds in three) as whole numbers in int64 / int32 columns, and W -> W_l1 joins the lags at a random place whenever lags are given and W is simulated (a quarter of the other lagged cases; always under a rule that reads W_l1); the columns reach zEpid under one of three namings (canonical; names containing the plan words all / none / natural such as fall, overall, none_yet, small_vessel; names nested in one another such as t / t_end / art / art_l1 / event / event_id) and are read back into the canonical ones; a custom rule is also judged on predicted_outcomes alone whenever everything it reads can be rebuilt from the records (simulated covariates, time_in, lagged variables through the previous record, baseline constants). distinct = '
         'distinct (cell, data seed, np seed, sample, t_max); non-trivial = at least one history stops before t_max '
         'and at least one reaches it')
 ASSUMPTIONS = ['statsmodels results.predict(frame) returns one probability in [0,1] per row of the frame (measured '
-               'on every call)',
+               'on every call of the full-output run of every case; the low-memory run repeats it with the same seed)',
                'np.random.binomial / normal return one value per row; the draws themselves are arbitrary (the model '
                'is parametric in them, nothing is assumed about the RNG)',
                'DataFrame.sample(n, replace=True) returns n rows of the baseline rows (measured)',
@@ -47,9 +48,40 @@ ASSUMPTIONS = ['statsmodels results.predict(frame) returns one probability in [0
                'recode / treatment strings are generated from the modelled grammar only (arbitrary exec strings '
                'are not modelled)']
 
-NAMES = ['A', 'Y', 't_in', 't_out', 'uncensored', 'L', 'L2', 'W', 'A_l1', 'A_l2', 'L_l1', 'W0', 'cumA', 't_sq', 'cumL', 'cumA_l1']
+NAMES = ['A', 'Y', 't_in', 't_out', 'uncensored', 'L', 'L2', 'W', 'A_l1', 'A_l2', 'L_l1', 'W0', 'cumA', 't_sq', 'cumL', 'cumA_l1',
+         'W_l1']
 CID = {n: i for i, n in enumerate(NAMES)}
 BASECOLS = [n for n in NAMES if n != 'uncensored']
+
+# --------------------------------------------------------------------------- the caller's own column names
+# The check speaks about the columns by the canonical names above; what zEpid is given (frame, constructor arguments,
+# model formulas, recode / rule strings, the lags dictionary) carries the names of the case's alias and what comes
+# back (predicted_outcomes, the frames the models see) is read back into the canonical ones.  No clause of the
+# property depends on a name: names that contain the words the plan argument uses ('all', 'none', 'natural'), names
+# that are pieces of one another (beyond A / A_l1 / A_l2, L / L2 / L_l1, W / W0 / W_l1, which nest already), one-letter
+# time columns.  ('uncensored' and 'uid_g_zepid' are zEpid's own working columns and are not the caller's to use.)
+ALIASES = {
+    'plain': {},
+    'keywords': {'L': 'fall', 'L_l1': 'fall_l1', 'L2': 'small_vessel', 'W': 'overall', 'W0': 'overall0',
+                 'W_l1': 'overall_l1', 'cumA': 'none_yet', 'cumA_l1': 'none_yet_l1', 'cumL': 'falls',
+                 't_sq': 'natural_t', 'id': 'recall_id', 'wt': 'allocation'},
+    'nested': {'Y': 'event', 'id': 'event_id', 't_in': 't', 't_out': 't_end', 'A': 'art', 'A_l1': 'art_l1',
+               'A_l2': 'art_l1_l1', 'wt': 'w', 'cumA': 'art_n', 'cumA_l1': 'art_n_l1'},
+}
+_IDENT = re.compile(r'[A-Za-z_][A-Za-z_0-9]*')
+
+
+def alias_of(spec):
+    return ALIASES[spec.get('alias') or 'plain']
+
+
+def ren(a, name):
+    return a.get(name, name)
+
+
+def nsub(a, text):
+    """a formula / recode program / rule written with the canonical names, in the caller's names"""
+    return text if (text is None or not a) else _IDENT.sub(lambda m: a.get(m.group(0), m.group(0)), text)
 
 
 # --------------------------------------------------------------------------- grammar (shared with the Lean model)
@@ -152,6 +184,7 @@ def gen_data(seed, n, T, weights):
         W0 = float(np.round(rng.normal(), 3))
         w = int(rng.integers(1, 4))
         cumA, cumL, cumA_l1 = 0, 0, 0
+        W_l1 = W0                                   # the measurement before follow-up opens
         t0 = int(rng.choice([0, 0, 0, 1, 2]))      # late entry: the first observed record need not open at time 0
         for t in range(t0, T):
             L = int(rng.uniform() < 0.35 + 0.25 * L_l1 + 0.1 * A_l1 + 0.1 * b[0])
@@ -161,10 +194,10 @@ def gen_data(seed, n, T, weights):
             Y = int(rng.uniform() < 0.10 + 0.08 * L - 0.04 * A + 0.02 * t + 0.05 * b[3])
             C = int(rng.uniform() < 0.10 + 0.05 * L)
             rows.append(dict(id=pid, t_in=t, t_out=t + 1, L=L, L2=L2, W=W, A=A, Y=Y, A_l1=A_l1, A_l2=A_l2, L_l1=L_l1,
-                             W0=W0, cumA=cumA, cumL=cumL, t_sq=t * t, wt=w, cumA_l1=cumA_l1))
+                             W0=W0, cumA=cumA, cumL=cumL, t_sq=t * t, wt=w, cumA_l1=cumA_l1, W_l1=W_l1))
             if Y or C:
                 break
-            A_l2, A_l1, L_l1 = A_l1, A, L
+            A_l2, A_l1, L_l1, W_l1 = A_l1, A, L, W
             cumA_l1 = cumA + A          # the count at the end of this interval (out_recode runs before the lags)
             cumA += A
             cumL += L
@@ -173,7 +206,12 @@ def gen_data(seed, n, T, weights):
         df['wt'] = df['wt'] * 0.37 + 0.21
     if int(seed) % 2 == 1:                     # an unused column with missing values in the caller's frame
         df['junk'] = np.where(np.arange(len(df)) % 3 == 0, np.nan, 1.5)
-    # container / dtype variance (by data seed): string ids, fixed-width integer columns
+    # container / dtype variance (by data seed): string ids, fixed-width integer columns; the continuous covariate
+    # recorded as a whole number (a count such as CD4: W, its baseline value and its lag column are integer columns of
+    # the caller's frame -- what is simulated for it is continuous all the same)
+    if int(seed) % 3 != 0:
+        for c in ('W', 'W0', 'W_l1'):
+            df[c] = np.round(df[c] * 10).astype(np.int64 if int(seed) % 3 == 1 else np.int32)
     if int(seed) % 3 == 1:
         df['id'] = ['p%04d' % v for v in df['id']]
     if int(seed) % 3 == 2:
@@ -208,25 +246,28 @@ def fitted(spec, fresh=False):
     does not touch the cache)"""
     from zepid.causal.gformula import MonteCarloGFormula
     key = (spec['data_seed'], spec['n'], spec['T'], spec['weights'], spec['covs'], spec['cens'],
-           repr(spec.get('covrec')), bool(spec.get('positional')))
+           repr(spec.get('covrec')), bool(spec.get('positional')), spec.get('alias') or 'plain')
     if key in _FITTED and not fresh:
         return _FITTED[key]
     if len(_FITTED) > 40:
         _FITTED.clear()
     df = gen_data(spec['data_seed'], spec['n'], spec['T'], spec['weights'])
+    a = alias_of(spec)
+    dfa = df.rename(columns=a)                   # what the caller hands over; `df` keeps the canonical names
+    wt = ren(a, 'wt') if spec['weights'] else None
     if spec.get('positional'):
-        gf = MonteCarloGFormula(df, 'id', 'A', 'Y', 't_in', 't_out', 'wt' if spec['weights'] else None)
+        gf = MonteCarloGFormula(dfa, ren(a, 'id'), ren(a, 'A'), ren(a, 'Y'), ren(a, 't_in'), ren(a, 't_out'), wt)
     else:
-        gf = MonteCarloGFormula(df, idvar='id', exposure='A', outcome='Y', time_out='t_out', time_in='t_in',
-                                weights='wt' if spec['weights'] else None)
-    gf.exposure_model('L + A_l1 + t_in + cumA_l1', print_results=False)
-    gf.outcome_model('A + L + A_l1 + t_in', print_results=False)
+        gf = MonteCarloGFormula(dfa, idvar=ren(a, 'id'), exposure=ren(a, 'A'), outcome=ren(a, 'Y'),
+                                time_out=ren(a, 't_out'), time_in=ren(a, 't_in'), weights=wt)
+    gf.exposure_model(nsub(a, 'L + A_l1 + t_in + cumA_l1'), print_results=False)
+    gf.outcome_model(nsub(a, 'A + L + A_l1 + t_in'), print_results=False)
     covrec = spec.get('covrec') or {}
     for c in COVSETS[spec['covs']]:
-        gf.add_covariate_model(label=c['label'], covariate=c['col'], model=c['model'], var_type=c['typ'],
-                               recode=s_py(covrec.get(c['col'])), print_results=False)
+        gf.add_covariate_model(label=c['label'], covariate=ren(a, c['col']), model=nsub(a, c['model']),
+                               var_type=c['typ'], recode=nsub(a, s_py(covrec.get(c['col']))), print_results=False)
     if spec['cens']:
-        gf.censoring_model('A + L + t_in', print_results=False)
+        gf.censoring_model(nsub(a, 'A + L + t_in'), print_results=False)
     for m in [gf.exp_model, gf.out_model, gf.cens_model] + list(gf._covariate_models):
         if m is not None and not np.all(np.isfinite(np.asarray(m.params, dtype=float))):
             raise ExternalFitFailure('non-finite coefficients')
@@ -239,11 +280,14 @@ def fitted(spec, fresh=False):
 class Tap:
     """Wraps MonteCarloGFormula._predict: logs (kind by position, frame, draws); optionally pins the draws."""
 
-    def __init__(self, gf, spec, seencols):
+    def __init__(self, gf, spec, seencols, measure=True):
         self.gf = gf
+        self.measure = measure    # gate H's reference invocation model.predict(frame): on the full-output run of a case
         self.spec = spec
         self.seencols = seencols
         self.calls = []
+        self.alias = alias_of(spec)
+        self.unalias = {v: k for k, v in self.alias.items()}
         self.h_ok = True          # reference invocation model.predict(frame) behaved as assumed
         self.draw_ok = True       # what zEpid's _predict returned is one value per row (0/1 for binary models)
         self.h_n = 0
@@ -281,7 +325,7 @@ class Tap:
             return 'cens'
         for j, m in enumerate(gf._covariate_models):
             if model is m:
-                return 'cov:' + gf._covariate[j]
+                return 'cov:' + self.unalias.get(gf._covariate[j], gf._covariate[j])
         return '?'
 
     def record(self, df, model, variable, r):
@@ -290,7 +334,7 @@ class Tap:
         self.h_n += 1
         if r.shape != (n,) or (variable == 'binary' and not np.isin(r, [0, 1]).all()):
             self.draw_ok = False
-        if variable == 'binary':
+        if variable == 'binary' and self.measure:
             pp = np.asarray(model.predict(df), dtype=float)
             if pp.shape != (n,) or not (np.all(pp >= 0) and np.all(pp <= 1)):
                 self.h_ok = False
@@ -301,22 +345,23 @@ class Tap:
                 r = self.pin.binomial(1, p, size=n).astype(r.dtype if r.dtype.kind in 'iu' else np.int64)
             else:
                 r = np.round(self.pin.normal(size=n), 3)
-        cols = [c for c in self.seencols if c in df.columns]
+        cols = [c for c in self.seencols if ren(self.alias, c) in df.columns]
         self.calls.append(dict(kind=kind, variable=variable, uid=df['uid_g_zepid'].to_numpy().astype(int).copy(),
-                               cols=cols, frame=df[cols].to_numpy(dtype=float).copy(),
+                               cols=cols, frame=df[[ren(self.alias, c) for c in cols]].to_numpy(dtype=float).copy(),
                                draws=np.array(r, dtype=float)))
         return r
 
 
-def run_fit(gf, spec, low_memory, seencols):
+def run_fit(gf, spec, low_memory, seencols, measure=True):
     """one call of the real fit under the tap; returns (predicted_outcomes or exception, tap)"""
-    tap = Tap(gf, spec, seencols)
+    tap = Tap(gf, spec, seencols, measure)
     tap.install()
     try:
         np.random.seed(int(spec['np_seed']))
-        lags = dict((k, v) for k, v in spec['lags']) if spec['lags'] else None
+        a = alias_of(spec)
+        lags = dict((ren(a, k), ren(a, v)) for k, v in spec['lags']) if spec['lags'] else None
         if spec['plan'] == 'custom':
-            treatment = c_py(spec['rule'])
+            treatment = nsub(a, c_py(spec['rule']))
         else:
             treatment = spec['plan']
         try:
@@ -326,8 +371,9 @@ def run_fit(gf, spec, low_memory, seencols):
             elif tm is not None and spec.get('tmax_type') == 'float':
                 tm = float(tm)
             gf.fit(treatment=treatment, lags=lags, sample=int(spec['sample']), t_max=tm,
-                   in_recode=s_py(spec.get('inrec')), out_recode=s_py(spec.get('outrec')), low_memory=low_memory)
-            return gf.predicted_outcomes.copy(), tap
+                   in_recode=nsub(a, s_py(spec.get('inrec'))), out_recode=nsub(a, s_py(spec.get('outrec'))),
+                   low_memory=low_memory)
+            return gf.predicted_outcomes.rename(columns={v: k for k, v in a.items()}), tap
         except Exception as e:  # noqa: BLE001  (any exception of the real code is data here)
             return e, tap
     finally:
@@ -470,9 +516,9 @@ def run_case(spec, drv):
         pre = dict(spec)
         pre.update(spec['prefit'])
         pre['pin'] = None
-        run_fit(gf, pre, bool(pre.get('low_memory', True)), seencols)
+        run_fit(gf, pre, bool(pre.get('low_memory', True)), seencols, measure=False)
     full, tap = run_fit(gf, spec, False, seencols)
-    low, tap2 = run_fit(gf, spec, True, seencols)
+    low, tap2 = run_fit(gf, spec, True, seencols, measure=False)     # same seed, same frames: measured in the full run
     info['h_n'] = tap.h_n + tap2.h_n
     info['h_ok'] = tap.h_ok and tap2.h_ok
     # ---- t_max = 0: nothing to concatenate; the real code raises, the model rejects
@@ -632,13 +678,56 @@ def run_case(spec, drv):
         if hooked:
             D(ok_rule, 'custom plan: exposure = rule evaluated on the row (simulated covariates, lags, drawn '
                        'exposure)', key='rule')
+        # hook-free, on predicted_outcomes alone: what the rule read in interval s is rebuilt from the records -- a
+        # simulated covariate and time_in from record s, a lagged variable from record s-1 (from the sampled baseline
+        # row in the first interval; a lag of a lag one record further back), anything else carried from the
+        # baseline row.  Not rebuilt (then not judged here): the drawn exposure itself, columns a recode program writes
         rd = c_reads(spec['rule'])
-        lagt = {v for k, v in (spec['lags'] or [])}
-        outt = {d for d, e in (spec.get('outrec') or [])}
-        if rd <= (set(covcols) | {'t_in'}) and not (rd & (lagt | outt)):
-            want = [1 if c_val(spec['rule'], r) else 0 for r in full[list(rd)].to_dict('records')] if rd else None
-            D(want is None or full['A'].tolist() == want,
-              'custom plan: rule holds row by row on the output record itself')
+        lagmap = {v: k for k, v in (spec['lags'] or [])}
+        touched = {d for d, e in (spec.get('inrec') or [])} | {d for d, e in (spec.get('outrec') or [])} | \
+            {d for prog in (spec.get('covrec') or {}).values() for d, e in prog}
+        ends = set(covcols) | {'A', 'Y', 't_in', 't_out'}
+
+        def cur(v, recs, s, b, depth=0):
+            if v in touched or v in ('A', 'Y', 't_out', 'uncensored') or depth > 6:
+                return None
+            if v == 't_in':
+                return s
+            if v in covcols:
+                return recs[s][v]
+            if v in lagmap:
+                return b[v] if s == 0 else end(lagmap[v], recs, s - 1, b, depth + 1)
+            return b[v]
+
+        def end(k, recs, s, b, depth):
+            if k in touched:
+                return None
+            if k in ends:
+                return recs[s][k]
+            if k in lagmap:          # the lag update reads every source before it writes any lag column
+                return cur(k, recs, s, b, depth + 1)
+            return b[k]
+        base0 = df.sort_values(['id', 't_out']).groupby('id').head(1).set_index('id')
+        judged, ok_out = 0, True
+        for u, gdf in groups.items():
+            if gdf['id'].iloc[0] not in base0.index:
+                continue
+            b = base0.loc[gdf['id'].iloc[0]]
+            recs = gdf.to_dict('records')
+            for si, rec in enumerate(recs):
+                row = {v: cur(v, recs, si, b) for v in rd}
+                if any(x is None for x in row.values()):
+                    break
+                judged += 1
+                if rec['A'] != (1 if c_val(spec['rule'], row) else 0):
+                    ok_out = False
+                    note('ruleout', 'uid %d interval %d: A=%g but rule %s reads %s' % (
+                        u, si, rec['A'], c_py(spec['rule']), {k: float(row[k]) for k in sorted(row)}))
+        info['rule_rows_judged_on_output'] = judged
+        if judged:
+            D(ok_out, 'custom plan: rule holds row by row on the output records themselves (simulated covariates of the '
+                      'record, lagged variables from the previous record, the rest from the sampled baseline row)',
+              key='ruleout')
     # ---- lags: at every prediction of step i the lag column holds the source's value of step i-1
     if spec['lags'] and hooked:
         lags = [(k, v) for k, v in spec['lags']]
@@ -756,6 +845,7 @@ def gen_atom(rng, covs):
             ('cumA', [0, 1, 2]), ('cumA_l1', [0, 1, 2]), ('W0', [-0.5, 0.0, 0.5])]
     if covs == 'LW':
         pool.append(('W', [-0.25, 0.5]))
+        pool.append(('W_l1', [-0.25, 0.5, 3]))
     if covs == 'L2rev':
         pool.append(('L2', [0, 1]))
     name, consts = pool[int(rng.integers(0, len(pool)))]
@@ -833,6 +923,15 @@ def random_spec(rng, plan, covs, cens, lagset, tier, i):
     if lagx:
         spec['lags'] = [list(x) for x in (spec['lags'] or [])] + lagx
         spec['lagset'] = lagset + '+count'
+    # a lag of the continuous covariate (simulated when covs = LW, otherwise carried from the baseline row), listed at
+    # a random place among the others; under a rule that reads W_l1 always
+    if lagset != 'none' and (covs == 'LW' or rng.uniform() < 0.25) or \
+            (plan == 'custom' and 'W_l1' in c_reads(spec['rule'])):
+        lg = [list(x) for x in (spec['lags'] or [])]
+        lg.insert(int(rng.integers(0, len(lg) + 1)), ['W', 'W_l1'])
+        spec['lags'] = lg
+        spec['lagset'] = spec['lagset'] + '+W'
+    spec['alias'] = str(rng.choice(list(ALIASES), p=[0.4, 0.4, 0.2]))
     spec['tmax_type'] = str(rng.choice(['int', 'int', 'np', 'float']))
     # histories on one object: a different fit first (other horizon, plan, sample, memory mode); a fresh twin
     if rng.uniform() < 0.3:
@@ -867,10 +966,12 @@ def feed(chk, spec, out):
     chk.count('covs_' + spec['covs'])
     chk.count('cens_%d' % spec['cens'])
     chk.count('lags_' + spec['lagset'])
+    chk.count('names_' + (spec.get('alias') or 'plain'))
     chk.count('draws_' + ('pinned' if spec.get('pin') is not None else 'numpy'))
     chk.count('tmax_%s' % spec['tmax'])
     chk.count('sample_' + ('1' if spec['sample'] == 1 else '2-3' if spec['sample'] <= 3 else '4-39'
                            if spec['sample'] < 40 else '40-200'))
+    chk.count('custom_rule_rows_judged_on_output_alone', info.get('rule_rows_judged_on_output', 0))
     chk.count('histories_stopping_early', info.get('stops_early', 0))
     chk.count('histories_reaching_tmax', info.get('reaches_end', 0))
     for gate, ok, what, sig in out['results']:
